@@ -46,10 +46,11 @@ func vfC06Turns(thorough bool) []vfC06TurnKind {
 		{"log-then-finish", VfTurn{Logs: []string{"INFO:bye"}, Finish: true}},
 		{"emit+finish", VfTurn{Emit: 1, Rows: 1, Finish: true}},
 		{"log-then-error", VfTurn{Logs: []string{"ERROR:uh-oh"}, Fail: "plain"}},
+		// an empty data batch is still that turn's one data batch
+		{"emit-zero-rows", VfTurn{Emit: 1, Rows: 0}},
 	}
 	if thorough {
 		ts = append(ts,
-			vfC06TurnKind{"emit-zero-rows", VfTurn{Emit: 1, Rows: 0}},
 			vfC06TurnKind{"log-only-no-emit", VfTurn{Logs: []string{"INFO:nothing"}}},
 			vfC06TurnKind{"log-then-panic", VfTurn{Logs: []string{"INFO:pre"}, Fail: "panic"}},
 		)
